@@ -7,6 +7,7 @@ package main
 import (
 	"bytes"
 	"fmt"
+	"os"
 
 	"go.sia.tech/core/types"
 	rhp4 "go.sia.tech/coreutils/rhp/v4"
@@ -210,6 +211,15 @@ func (h *harness) judge(o *outcome) []failure {
 	}
 	// exactly the funded inputs stay locked
 	gone, extra := diffSets(hostB, hostA)
+	if (!sameIDs(gone, o.Log.fundedIDs) || len(extra) > 0) && os.Getenv("C16_DEBUG") != "" {
+		for _, a := range hostA {
+			for _, e := range extra {
+				if a.ID == e {
+					fmt.Fprintf(os.Stderr, "   gained host output %v value %v unconf %v\n", a.ID, a.Value, a.Unconf)
+				}
+			}
+		}
+	}
 	if !sameIDs(gone, o.Log.fundedIDs) || len(extra) > 0 {
 		fail("success-locks-wrong-set", "after success the host lost %d spendable outputs and gained %d, it funded %d", len(gone), len(extra), len(o.Log.fundedIDs))
 	}
@@ -230,15 +240,16 @@ func (h *harness) judge(o *outcome) []failure {
 	if h.deferConfirm {
 		// the caller wants the set to stay in the pool for now; the mined part of
 		// the judgement runs when it confirms
-		h.pending = func() []failure { return h.judgeMined(o, bc, id, fc, renewal) }
+		since := w.cmH.Tip()
+		h.pending = func() []failure { return h.judgeMined(o, since, bc, id, fc, renewal) }
 		return fs
 	}
-	return append(fs, h.judgeMined(o, bc, id, fc, renewal)...)
+	return append(fs, h.judgeMined(o, w.cmH.Tip(), bc, id, fc, renewal)...)
 }
 
 // judgeMined mines the host's pool and checks that the contract exists on
 // chain with exactly the agreed funding.
-func (h *harness) judgeMined(o *outcome, bc rhp4.TransactionSet, id types.FileContractID, fc types.V2FileContract, renewal *types.V2FileContractRenewal) []failure {
+func (h *harness) judgeMined(o *outcome, since types.ChainIndex, bc rhp4.TransactionSet, id types.FileContractID, fc types.V2FileContract, renewal *types.V2FileContractRenewal) []failure {
 	w := h.w
 	s := o.Script
 	rn := w.renterNode(s)
@@ -248,7 +259,10 @@ func (h *harness) judgeMined(o *outcome, bc rhp4.TransactionSet, id types.FileCo
 	}
 	rfund, hfund, _, _, tok := w.hostTerms(o)
 	last := bc.Transactions[len(bc.Transactions)-1]
-	_, applied := w.confirm()
+	w.confirm()
+	// (the set may have been mined by a block another step needed in the meantime)
+	_, applied, err := w.cmH.UpdatesSince(since, 1000)
+	must(err)
 	found, resolved, mined := false, false, false
 	for _, cau := range applied {
 		for _, txn := range cau.Block.V2Transactions() {
